@@ -32,7 +32,12 @@ func verifC13Auth(name string) *AuthContext {
 	m := verifC13StrMax()
 	d := verifNondetString(name+".dom", verifChoice(name+".dom.len", m+1))
 	verifAssume(verifAllInSet(d, "\x01\xff"))
-	p := verifNondetString(name+".prin", verifChoice(name+".prin.len", m+1))
+	pl := verifChoice(name+".prin.len", m+2)
+	if pl == m+1 {
+		// a principal as long as the anonymous sentinel's text ("anonymous", 9 bytes), bytes arbitrary
+		pl = 9
+	}
+	p := verifNondetString(name+".prin", pl)
 	return &AuthContext{Authenticated: true, Domain: d, Principal: p}
 }
 
@@ -48,7 +53,7 @@ func verifC13Same(a, b *AuthContext) bool {
 // The AAD is an injective rendering of the identity, and the two token kinds
 // never share an AAD.
 //
-//verif:bound two identities, each nil / unauthenticated / authenticated with Domain of 0..2 (quick) / 0..3 (thorough) non-NUL bytes and Principal of 0..2 / 0..3 arbitrary bytes (NUL allowed)
+//verif:bound two identities, each nil / unauthenticated / authenticated with Domain of 0..2 (quick) / 0..3 (thorough) non-NUL bytes and Principal of 0..2 / 0..3 or exactly 9 arbitrary bytes (NUL allowed; 9 = the length of the anonymous sentinel's text)
 func verifH_C13_aad_injective() {
 	a := verifC13Auth("a")
 	b := verifC13Auth("b")
